@@ -741,7 +741,7 @@ macro_rules! field_suite {
                         80..=84 => emit_eq(out, ctr, a, bb),
                         85..=89 => emit_from(out, r),
                         90..=93 => {
-                            let nl = 1 + below(r, $n64 + 1);
+                            let nl = 1 + below(r, $n64 + 4);   // up to 3 limbs longer than the modulus
                             let limbs: Vec<u64> = (0..nl)
                                 .map(|_| match below(r, 4) {
                                     0 => 0,
@@ -1098,7 +1098,8 @@ fn fq_extra(out: &mut dyn Write, r: &mut ChaCha20Rng, n: usize) {
         fq_pair(out, a, b);
         // power: exponents with a small low limb (the call is O(low limb) on the pinned tree)
         if i % 3 == 0 {
-            let nl = 1 + below(r, 5);
+            // 1 .. 9 limbs: longer than the modulus, longer than any fixed-width buffer
+            let nl = 1 + below(r, 9);
             let mut limbs: Vec<u64> = (0..nl)
                 .map(|_| match below(r, 3) {
                     0 => below(r, 3) as u64,
